@@ -15,7 +15,7 @@ BASE = ['c05_str.c', 'c05_list.c', 'models.c']
 CUT = BASE + ['c05_cut.c']
 Q = ('quick', 'thorough'); T = ('thorough',)
 QUICK_CHOOSE = {(0, 0), (1, 2), (2, 2), (3, 2)}
-MEM = {0: 2.5, 1: 4, 2: 5, 3: 6}
+MEM = {0: 2.5, 1: 3.5, 2: 4.5, 3: 5.5}
 def od(o, d): return {'C05_NOFF': o, 'C05_NDIS': d}
 def choose(o, d):
     return I('choose_o%d_d%d' % (o, d), 'h_choose', cdefs=od(o, d), tiers=Q if (o, d) in QUICK_CHOOSE else T, mem_gb=MEM[o],
@@ -28,7 +28,7 @@ SPEC = dict(
                     I('parse_alias', 'h_parse_table', unwind=2, mem_gb=2.5, cdefs={'C05_ROW_LO': 52, 'C05_ROW_HI': 53}, bound='row 52 "HT-SHA-256SHA-384-NONE" (regression check of the repaired HT parser)')], BASE),
         # REAL chooseMechanism / isMechanismAvailable / variant order / configuration, fromString cut to the lemma
         G('choose_cut', [choose(o, d) for o in (0, 1, 2, 3) for d in (0, 1, 2)]
-                        + [I('default_plain_o%d' % o, 'h_default_plain', cdefs=od(o, 0), mem_gb=MEM[o], tiers=Q if o == 3 else T,
+                        + [I('default_plain_o%d' % o, 'h_default_plain', cdefs=od(o, 0), mem_gb=MEM[o], tiers=Q if o == 2 else T,
                              bound='default-constructed configuration (disabled = {PLAIN} from the constructor), offer list of exactly %d names' % o) for o in (1, 2, 3)]
                         + [I('mismatch_sasl1_o%d' % o, 'h_mismatch_sasl1', cdefs=od(o, 2), mem_gb=4, tiers=Q if o == 3 else T,
                              bound='SaslManager::authenticate, offer list of exactly %d names, nothing permitted' % o) for o in (0, 2, 3)]
